@@ -52,6 +52,11 @@ CLAIMED = {
    "DESIGN.md §6 C15",
    "On/off differential on the implementation; Lean kernel for the proved part; model tied by V-line correspondence incl. raw call stacks and token sets.",
    "detail on/off differential + Lean 4 erasure theorem over the ParserState model"),
+ "C08": ("other",
+   "Two ties: (1) ParserState::track / attempts_at / the sort-dedup epilogue are part of the proved-about ParserState model and the lowered VM model reproduces Vm::parse's error position and expected/unexpected sets on every failing case; (2) the property's own statement is written as specReport, a structural function of the call tree of the reference semantics (furthest reportable attempt; a failing or negated-matching rule stands for the attempts inside it at the same position unless exactly one was made), evaluated by the Lean model on the unoptimized grammar and compared with the real report. Soundness lemmas about specReport are being proved; track_eq_spec (model of track = specReport) is not proved, hence level other.",
+   "DESIGN.md §6 C08",
+   "specReport is the formalised property; differential against Vm::parse on all failing inputs up to a length bound; lister classified with hook H2.",
+   "Lean 4 specification of the report on the reference call tree + exhaustive-per-grammar differential against Vm::parse"),
 }
 REASON_TODO = "not claimed yet: machinery for this property is not built in the committed tree (planned in DESIGN.md §6); no check is registered rather than an unsound one"
 
